@@ -510,25 +510,26 @@ func (r *randSrc) mutate(t *Tree) (string, *Tree) {
 // ---------------------------------------------------------------------------------------------
 
 type traceLine struct {
-	Ev       string `json:"ev"`
-	Target   string `json:"target"`
-	AST      *AST   `json:"ast,omitempty"`
-	Desc     *Tree  `json:"desc"`
-	Described bool  `json:"described"`
-	Acc      string `json:"acc"`
-	Link     string `json:"link"`
-	Use      string `json:"use"`
-	Labels   []string `json:"labels"`
+	Ev        string   `json:"ev"`
+	Target    string   `json:"target"`
+	AST       *AST     `json:"ast,omitempty"`
+	Desc      *Tree    `json:"desc"`
+	Described bool     `json:"described"`
+	Acc       string   `json:"acc"`
+	Link      string   `json:"link"`
+	Use       string   `json:"use"`
+	Labels    []string `json:"labels"`
 }
 
 type randCase struct {
-	Mode   string   `json:"mode"`
-	What   string   `json:"what"`
-	Target string   `json:"target"`
-	AST    *AST     `json:"ast,omitempty"`
-	Tree   *Tree    `json:"tree,omitempty"`
-	Labels []string `json:"labels,omitempty"`
-	Seed   int64    `json:"seed"`
+	Mode     string    `json:"mode"`
+	What     string    `json:"what"`
+	Target   string    `json:"target"`
+	AST      *AST      `json:"ast,omitempty"`
+	Tree     *Tree     `json:"tree,omitempty"`
+	Labels   []string  `json:"labels,omitempty"`
+	Seed     int64     `json:"seed"`
+	Builders []Builder `json:"builders,omitempty"`
 }
 
 func doRand(c *Case) *Result {
@@ -536,7 +537,7 @@ func doRand(c *Case) *Result {
 	r := newRand(c.Seed)
 	// replay of one recorded random case
 	if c.AST != nil || c.Tree != nil {
-		runRandCase(c.What, c.Target, c.AST, c.Tree, c.Labels, c.Seed, total)
+		runRandCaseB(c.What, c.Target, c.AST, c.Tree, c.Labels, c.Seed, total, c.Builders)
 		return total
 	}
 	for i := 0; i < c.Count; i++ {
@@ -551,7 +552,13 @@ func doRand(c *Case) *Result {
 			a = g.scope()
 		}
 		if c.What == "c09" {
-			runRandCase("c09", target, a, nil, nil, c.Seed*1000+int64(i), total)
+			// half of the schemas go through the life cycle: built, described, a property disabled through the
+			// public builder, described again (the AST handed on is the schema after the call)
+			var bs []Builder
+			if r.chance(0.5) {
+				bs = disableOne(r, a, target)
+			}
+			runRandCaseB("c09", target, a, nil, nil, c.Seed*1000+int64(i), total, bs)
 			continue
 		}
 		// c10: the real description of a describable schema, randomly mutated
@@ -588,11 +595,45 @@ func doRand(c *Case) *Result {
 	return total
 }
 
+// disableOne picks a property that is not disabled, marks it disabled in the AST and returns the builder call.
+func disableOne(r *randSrc, a *AST, target string) []Builder {
+	scopes := astScopes(a, target)
+	names := make([]string, 0, len(scopes))
+	for n := range scopes {
+		names = append(names, n)
+	}
+	sort.Strings(names)
+	for tries := 0; tries < 10 && len(names) > 0; tries++ {
+		name := names[r.Intn(len(names))]
+		objs := scopes[name].objects()
+		if len(objs) == 0 {
+			continue
+		}
+		o := objs[r.Intn(len(objs))]
+		ps := o.Obj.props()
+		if len(ps) == 0 {
+			continue
+		}
+		i := r.Intn(len(ps))
+		if ps[i].Disabled {
+			continue
+		}
+		ps[i].Disabled = true
+		ps[i].DisabledReason = OptS{true, "why"}
+		return []Builder{{Op: "disable", Scope: name, Obj: o.Key, Prop: ps[i].Name, Reason: "why"}}
+	}
+	return nil
+}
+
 func runRandCase(what, target string, a *AST, t *Tree, labels []string, seed int64, total *Result) {
-	replay := randCase{Mode: "rand", What: what, Target: target, AST: a, Tree: t, Labels: labels, Seed: seed}
+	runRandCaseB(what, target, a, t, labels, seed, total, nil)
+}
+
+func runRandCaseB(what, target string, a *AST, t *Tree, labels []string, seed int64, total *Result, bs []Builder) {
+	replay := randCase{Mode: "rand", What: what, Target: target, AST: a, Tree: t, Labels: labels, Seed: seed, Builders: bs}
 	r := &Result{}
 	if what == "c09" {
-		cc := &Case{Mode: "c09", Target: target, AST: a, Seed: seed}
+		cc := &Case{Mode: "c09", Target: target, AST: a, Seed: seed, Builders: bs}
 		doC09(cc, r, replay)
 		// trace line: the real description (when there is one) and the stage facts on it
 		b, pi := buildTop(a, target, false)
